@@ -1331,7 +1331,9 @@ impl<'a> Gen<'a> {
     match r {
       0..=34 => {
         // method (+ overloads)
-        let overloaded = !self.units_mode && self.rng.chance(15);
+        // (overloads only for plain keys: for a computed key the real tracer does not treat the
+        // implementation as one, so its signature stays and the intent oracle would be wrong)
+        let overloaded = !self.units_mode && !matches!(key, Key::Computed(_)) && self.rng.chance(15);
         let sigs = if overloaded { self.overload_sigs(1, public) } else { vec![] };
         let is_abstract = in_abstract && !overloaded && self.rng.chance(20);
         let mut f = self.fn_like(1, public && !overloaded, false, false);
@@ -1573,7 +1575,13 @@ impl<'a> Gen<'a> {
           let init = match self.rng.below(5) {
             0 => Some(Expr::Num(k as u32 + 1)),
             1 => Some(Expr::Bin("<<", Box::new(Expr::Num(1)), Box::new(Expr::Num(k as u32)))),
-            2 => Some(self.leavable(2)),
+            // (enum initialisers are carried over verbatim, so every reference in them is API:
+            // only forms whose references are all recorded)
+            2 => {
+              let l = self.lit();
+              let v = self.value_ident();
+              Some(Expr::Bin("+", Box::new(l), Box::new(v)))
+            }
             _ => None,
           };
           members.push((format!("M{}", k), init));
@@ -2006,4 +2014,157 @@ pub fn gen_fn_package(rng: &mut Rng) -> (String, Vec<(String, u64)>) {
   g.feats.insert("model-stream-decls".into(), n as u64);
   let text = p_module(&Module { path: "mod.ts".into(), items });
   (text, g.feats.into_iter().collect())
+}
+
+// ---------------------------------------------------------------- exhaustive small domain (model stream)
+
+const EX_KINDS: &[&str] = &["decl", "fnexpr", "arrow", "method", "getter", "setter", "ctor"];
+const EX_RETS: &[&str] = &["", ": void", ": number", ": any", ": Promise<void>"];
+const EX_BODIES: &[&str] = &[
+  "{}",
+  "{ return; }",
+  "{ return 1; }",
+  "{ if (c()) { return 1; } }",
+  "{ if (c()) {} else { return 1; } }",
+  "{ if (c()) { return; } return 1; }",
+  "{ for (;;) { return 1; } return 2; }",
+  "{ try { return; } catch (e) { return; } finally {} }",
+  "{ function inner() { return 1; } }",
+  "{ switch (c()) { case 0: return 1; } }",
+];
+/// arrow expression bodies
+const EX_EXPR_BODIES: &[&str] = &["1", "someIdent", "make()", "({ a: 1 } as T0)", "`t${1}`", "[someIdent, 1]", "(x: number) => x", "({} as void)"];
+const EX_PARAMS: &[&str] = &[
+  "",
+  "a: number",
+  "a",
+  "a?: number",
+  "a = 1",
+  "a = someIdent",
+  "a = make()",
+  "a: number = make()",
+  "a = 1 as any",
+  "a = Symbol()",
+  "a = [someIdent]",
+  "a = (x: number): number => x",
+  "a = (x) => x",
+  "...a: number[]",
+  "...a",
+  "[x, y]: number[]",
+  "{ x, y }",
+  "{ x, y }: T0 = make()",
+  "[x, y] = [1, 2]",
+  "[x, y] = make()",
+];
+/// two-parameter lists for ParamsOptionalStartIndex
+const EX_PAIRS: &[&str] = &[
+  "a: number = 1, b: string",
+  "a = 1, b: string",
+  "a?: number, b: string",
+  "a = 1, b?: string",
+  "a = 1, ...b: number[]",
+  "a: number = 1, b = 2",
+  "a = someIdent, b: string",
+  "a: number, b = 1",
+  "a = 1, b: string, c = 2",
+  "a?: number, b = 1, c: string, d?: number",
+];
+
+pub fn exhaustive_count() -> usize {
+  let async_gen = 3; // plain, async, generator
+  let n_block = EX_KINDS.len() * EX_RETS.len() * async_gen * EX_BODIES.len() * 3; // x3 parameter samples per combination
+  let n_params = EX_KINDS.len() * (EX_PARAMS.len() + EX_PAIRS.len()) * 2; // with / without return type
+  let n_arrow_expr = EX_RETS.len() * 2 * EX_EXPR_BODIES.len();
+  n_block + n_params + n_arrow_expr
+}
+
+fn ex_unit(name: &str, kind: &str, ag: usize, params: &str, ret: &str, body: &str) -> Option<String> {
+  let is_async = ag == 1;
+  let is_gen = ag == 2;
+  let a = if is_async { "async " } else { "" };
+  let st = if is_gen { "*" } else { "" };
+  Some(match kind {
+    "decl" => format!("export {}function{} {}({}){} {}\n", a, st, name, params, ret, body),
+    "fnexpr" => format!("export const {} = {}function{} ({}){} {};\n", name, a, st, params, ret, body),
+    "arrow" => {
+      if is_gen {
+        return None;
+      }
+      format!("export const {} = {}({}){} => {};\n", name, a, params, ret, body)
+    }
+    "method" => format!("export class {} {{ {}{}m({}){} {} }}\n", name, a, st, params, ret, body),
+    "getter" => {
+      if ag != 0 || !params.is_empty() {
+        return None;
+      }
+      format!("export class {} {{ get g(){} {} }}\n", name, ret, body)
+    }
+    "setter" => {
+      if ag != 0 || !ret.is_empty() || params.is_empty() || params.contains(", ") || params.starts_with("...") {
+        return None;
+      }
+      format!("export class {} {{ set s({}) {} }}\n", name, params, body)
+    }
+    _ => {
+      if ag != 0 || !ret.is_empty() {
+        return None;
+      }
+      format!("export class {} {{ constructor({}) {} }}\n", name, params, body)
+    }
+  })
+}
+
+/// The idx-th combination of the exhaustively enumerated small domain, as one exported declaration
+/// named `name` (None: the combination is not syntactically possible).
+pub fn exhaustive_unit(idx: usize, name: &str) -> Option<String> {
+  let n_block = EX_KINDS.len() * EX_RETS.len() * 3 * EX_BODIES.len() * 3;
+  let n_params = EX_KINDS.len() * (EX_PARAMS.len() + EX_PAIRS.len()) * 2;
+  if idx < n_block {
+    let mut i = idx;
+    let k = i % EX_KINDS.len();
+    i /= EX_KINDS.len();
+    let r = i % EX_RETS.len();
+    i /= EX_RETS.len();
+    let ag = i % 3;
+    i /= 3;
+    let b = i % EX_BODIES.len();
+    i /= EX_BODIES.len();
+    let params = ["", "a: number", "a = 1, b: string"][i % 3];
+    return ex_unit(name, EX_KINDS[k], ag, params, EX_RETS[r], EX_BODIES[b]);
+  }
+  let idx = idx - n_block;
+  if idx < n_params {
+    let mut i = idx;
+    let k = i % EX_KINDS.len();
+    i /= EX_KINDS.len();
+    let with_ret = i % 2 == 0;
+    i /= 2;
+    let params = if i < EX_PARAMS.len() { EX_PARAMS[i] } else { EX_PAIRS[i - EX_PARAMS.len()] };
+    return ex_unit(name, EX_KINDS[k], 0, params, if with_ret { ": number" } else { "" }, "{ return 1; }");
+  }
+  let mut i = idx - n_params;
+  let r = i % EX_RETS.len();
+  i /= EX_RETS.len();
+  let a = i % 2;
+  i /= 2;
+  let e = EX_EXPR_BODIES[i % EX_EXPR_BODIES.len()];
+  Some(format!("export const {} = {}(a: number){} => {};\n", name, if a == 1 { "async " } else { "" }, EX_RETS[r], e))
+}
+
+pub const EX_PRELUDE: &str = "export type T0 = { a: number };\nconst someIdent: number = 1;\n";
+pub const EX_PER_CASE: usize = 8;
+
+/// module text of the j-th case of the exhaustive stream
+pub fn exhaustive_module(j: usize) -> String {
+  let mut s = String::from(EX_PRELUDE);
+  for t in 0..EX_PER_CASE {
+    let idx = j * EX_PER_CASE + t;
+    if idx >= exhaustive_count() {
+      break;
+    }
+    if let Some(u) = exhaustive_unit(idx, &format!("U{}", t)) {
+      s.push_str(&u);
+    }
+  }
+  s
 }
